@@ -711,6 +711,100 @@ def rule_subset_enum(ctx):
 
 
 
+BITVEC = "board::bitboard::<impl std::convert::From<board::bitboard::Bitboard> for std::vec::Vec<board::square::Square>>::from"
+
+
+def _bit_iteration_from_fn(ctx, b, sym):
+    """The generator spelling: `iter::from_fn(|| (!rest.is_empty()).then(|| Square::from(rest.drop_forward() as u8))).collect()`.
+    from_fn calls the closure until it returns None; the closure is walked for both outcomes of its emptiness test."""
+    from . import cases
+    ret = mir.strip_copies(sym.local(0))
+    shape = ret[0] == "call" and ret[1] == "std::iter::Iterator::collect" and len(ret[2]) == 1 and ret[2][0][0] == "call" and ret[2][0][1] == "std::iter::from_fn" and len(ret[2][0][2]) == 1 and ret[2][0][2][0][0] == "closure"
+    ctx.check(shape, "bit-iteration:once-per-set-bit", "the result is from_fn(closure).collect()", b.where(0), bad_what="Vec<Square>::from(Bitboard) is `%s`: not a form this rule reads" % expr_str(ret)[:100])
+    if not shape:
+        return
+    clo = ret[2][0][2][0]
+    caps = [mir.strip_refs(c) for c in clo[2]]
+    cb = ctx.ix.bodies.get(clo[1])
+    ok = cb is not None and len(caps) == 1 and caps[0][0] == "var"
+    why = "the closure does not capture exactly one local"
+    if ok:
+        ctx.functions.add(cb.key)
+        ml = [l for l in range(len(b.locals)) if b.local_name(l) == caps[0][1]]
+        ds = b.defs().get(ml[0], []) if len(ml) == 1 else []
+        init = mir.strip_copies(sym.rvalue(ds[0][2])) if len(ds) == 1 and ds[0][2].get("k") not in ("call", "partial") else None
+        ok = init is not None and init[0] == "arg" and b.locals[ml[0]]["ty"] == "board::bitboard::Bitboard"
+        why = "the popped mask does not start as the argument"
+    if ok:
+        run = cases.run(ctx.ix, cb, {})
+        paths = [p for p in run.paths if p.end not in ("panic", "unreachable")]
+        ok = not run.overflow and len(paths) == 2 and all(p.end == "return" for p in paths)
+        why = "the closure does not have exactly two outcomes"
+        seen = set()
+        for p in paths if ok else ():
+            conds = [cases.cond_truth(c) for c in p.conds]
+            tests = [(d, t) for d, t in conds if d[0] == "call" and d[1].endswith("Bitboard::is_empty")]
+            pops = [e for e in p.events if e[0] == "call" and e[2].endswith("Bitboard::drop_forward")]
+            stores = [e for e in p.events if e[0] == "store"]
+            r = mir.strip_copies(p.ret) if p.ret is not None else ("?",)
+            if len(tests) != 1 or len(conds) != 1 or stores or mir.strip_refs(tests[0][0][2][0]) != (mir.strip_refs(pops[0][3][0]) if pops else mir.strip_refs(tests[0][0][2][0])):
+                ok, why = False, "an outcome of the closure depends on more than one emptiness test of the mask, or writes something"
+                break
+            if tests[0][1] is True:
+                good = r[0] == "agg" and r[2] == "None" and not pops
+            else:
+                v = mir.strip_copies(r[3][0]) if r[0] == "agg" and r[2] == "Some" and len(r[3]) == 1 else ("?",)
+                a = mir.strip_copies(v[2][0]) if v[0] == "call" and v[1].endswith("Square as std::convert::From<u8>>::from") and len(v[2]) == 1 else ("?",)
+                while a[0] == "cast":
+                    a = mir.strip_copies(a[1])
+                good = len(pops) == 1 and a[0] == "call" and a[1].endswith("Bitboard::drop_forward")
+            seen.add(tests[0][1])
+            if not good:
+                ok, why = False, "with the mask %s the closure yields `%s` after %d pop(s)" % ("empty" if tests[0][1] else "not empty", expr_str(r)[:80], len(pops))
+                break
+        ok = ok and seen == {True, False}
+    ctx.check(ok, "bit-iteration:pushes-that-square", "the closure yields None exactly when the mask is empty and otherwise Some(Square::from(index of the lowest set bit)), popping that bit once", b.where(0),
+              bad_what="Vec<Square>::from(Bitboard): %s; some set bits yield no square, or a square twice" % why)
+
+
+def rule_bit_iteration(ctx):
+    """`Vec<Square>::from(Bitboard)`, through which every generator turns its target mask into destination squares, yields
+    the square of every set bit exactly once, lowest first."""
+    b = ctx.body(BITVEC)
+    sym = ctx.sym(b)
+    pushes = [(bi, t) for bi, t in b.calls() if callee_is(t, "std::vec::Vec::push", "std::vec::Vec::<T, A>::push")]
+    if not pushes and [t for _b, t in b.calls() if callee_is(t, "std::iter::from_fn")]:
+        return _bit_iteration_from_fn(ctx, b, sym)
+    ctx.check(len(pushes) == 1, "bit-iteration:one-push", "one push site", b.where(0), bad_what="%d push sites in Vec<Square>::from(Bitboard)" % len(pushes))
+    if len(pushes) != 1:
+        return
+    pb, pt = pushes[0]
+    why, info = C.pop_loop(b, sym, pb)
+    ctx.check(why is None, "bit-iteration:once-per-set-bit", "the loop runs once for every set bit of the mask: it leaves exactly when the mask is empty and each round reads the lowest bit's index, then clears that bit (m &= m - 1)", b.where(pb),
+              bad_what="Vec<Square>::from(Bitboard): %s; some set bits yield no square, or a square twice" % why)
+    if why is not None:
+        return
+    init = mir.strip_copies(info["init"])
+    ctx.check(init[0] == "field" and init[1][0] == "arg" and init[2:] == ("0",), "bit-iteration:starts-from-the-argument", "the mask starts as the argument's word", b.where(0),
+              bad_what="the bit loop starts from `%s`, not from the bitboard passed in" % expr_str(init)[:80])
+    val = mir.strip_copies(sym.operand(pt["args"][1]))
+    idx = info["index"]
+    ok = val[0] == "call" and val[1].endswith("Square as std::convert::From<u8>>::from") and len(val[2]) == 1
+    if ok:
+        a = mir.strip_copies(val[2][0])
+        while a[0] == "cast":
+            a = mir.strip_copies(a[1])
+        ok = a[0] == "call" and a[1] == idx[1] and (idx[2] is None or tuple(mir.strip_copies(x) for x in a[2]) == idx[2])
+    ctx.check(ok and info["once"](pb), "bit-iteration:pushes-that-square", "each round pushes Square::from(index of the lowest set bit), once", b.where(pb),
+              bad_what="the value pushed is `%s`%s" % (expr_str(val)[:100], "" if info["once"](pb) else " and is not pushed exactly once per round"))
+    vec = mir.strip_refs(sym.operand(pt["args"][0]))
+    ret = mir.strip_copies(sym.local(0))
+    others = [(bi, t) for bi, t in b.calls() if bi != pb and any(mir.strip_refs(sym.operand(a)) == vec and sym.operand(a)[0] == "ref" for a in t["args"])]
+    new = [t for bi, t in b.calls() if callee_is(t, "std::vec::Vec::<T>::new", "std::vec::Vec::new", "std::vec::Vec::<T>::with_capacity", "std::vec::Vec::with_capacity") and not b.in_loop(bi)]
+    ctx.check(vec[0] == "var" and ret == vec and not others and len(new) == 1, "bit-iteration:returns-the-pushed-list", "the list starts empty, only the loop's push touches it, and it is what is returned", b.where(0),
+              bad_what="the returned list is `%s` (pushed-to list `%s`, %d other uses by reference, %d empty-list constructions)" % (expr_str(ret)[:60], expr_str(vec)[:60], len(others), len(new)))
+
+
 # --------------------------------------------------------------------------------- C06.rays
 
 WIDTH = {"u8": 8, "u16": 16, "u32": 32, "u64": 64, "usize": 64, "i8": 8, "i16": 16, "i32": 32, "i64": 64, "isize": 64, "char": 32}
@@ -1028,7 +1122,7 @@ def rule_bitboard_ops(ctx):
     ctx.check(r == ("bin", "Eq", ("field", ("arg", "self"), "0"), ("const", 0, "u64")), "bitboard-is_empty", "is_empty() is `word == 0`", ie.where(0), bad_what="is_empty() is `%s`" % expr_str(r))
 
 
-RULES = [("bitboard-ops", rule_bitboard_ops), ("rays", rule_rays), ("magic", rule_magic), ("scheme", rule_scheme), ("mask-edges", rule_mask_edges), ("ray-walk", rule_ray_walk), ("leapers", rule_leapers), ("queen", rule_queen), ("subset-enum", rule_subset_enum)]
+RULES = [("bitboard-ops", rule_bitboard_ops), ("rays", rule_rays), ("magic", rule_magic), ("scheme", rule_scheme), ("mask-edges", rule_mask_edges), ("ray-walk", rule_ray_walk), ("leapers", rule_leapers), ("queen", rule_queen), ("subset-enum", rule_subset_enum), ("bit-iteration", rule_bit_iteration)]
 
 
 def run(tier):
@@ -1041,6 +1135,6 @@ def run(tier):
                      "Kind::get_attacks dispatches correctly with all_pieces as blockers. get_blockers_from_index pairs bit i of the index with the i-th lowest mask bit over 0..popcount (so the fill loop enumerates every subset). "
                      "The eight ray expressions of init_rays, the leaper initialisers and the Bitboard operator impls are folded for all 64 squares (through the n-fold shift loops, in loop or fold form) "
                      "and compared with the oracle; each leaper store runs for every square that has attacks (an in-loop condition is folded for the 64 squares). "
-                     "Not decided: the bit iteration `Vec<Square>::from(Bitboard)`."),
+                     "`Vec<Square>::from(Bitboard)` is read as a pop-lowest-bit loop: it leaves exactly when the mask is empty, and every round reads trailing_zeros, pushes that square once and clears that bit."),
         assumptions=["square index = rank*8+file (checked by C04.same-words)"],
         extra={"exhaustive": True}, tier=tier)
